@@ -88,8 +88,17 @@ def check_timeline(spec, o, who='sim'):
     for name, vec in (('yearvec', o.yearvec), ('datevec', o.datevec), ('tvec', o.tvec)) + ((('timevec', o.timevec),) if o.numeric else ()):
         if len(vec) != n:
             fail('vector-length', name, f'len({name})={len(vec)} but npts={n}')
-    if fails or n == 0:
-        if n == 0: fail('vector-length', 'empty', 'accepted specification gave an empty timeline')
+    if fails:
+        return fails
+    if n == 0:
+        # an empty timeline is the consistent answer exactly when the start lies after the stop
+        a, b = spec['start'], spec['stop']
+        after = (to_date(a) > to_date(b)) if (is_date(a) and is_date(b)) else (not is_date(a) and not is_date(b) and num(a) > num(b))
+        if not after:
+            fail('vector-length', 'empty', f'empty timeline although start={a} is not after stop={b}')
+        for name, ln in sorted(o.reslens.items()):
+            if ln != 0:
+                fail('results-len', 'shape', f'result {name} has {ln} entries for 0 time points'); break
         return fails
     # elapsed time: tvec[i] = i*dt
     for i, t in enumerate(o.tvec):
